@@ -10,12 +10,19 @@ RULE = ("stream proto, profile=cms: an in-process krill (TA, parent p, children 
         "server's own key, with claimed sender != signer, unknown sender, wrong recipient, every request kind (list, "
         "issue for an own / a new / another child's key, revoke of an own / another child's key, unknown class, limits, "
         "reply payloads), before and after updateid / ca_child_update(id) / publisher re-registration / suspension, fed "
-        "to CaManager::rfc6492 and RepositoryManager::rfc8181 for the right and for other URL handles; single-bit "
+        "to CaManager::rfc6492 and RepositoryManager::rfc8181 for the right and for other URL handles; suspension "
+        "episodes (ca_child_update suspend, entitlement unchanged / reduced / enlarged / disjoint, two resource classes, "
+        "two keys during a key roll, a certificate with a limit, certificates about to expire, manual unsuspend) followed "
+        "by requests under the suspended child's own or a foreign key; single-bit "
         "corruptions of valid messages (quick: 128 sampled bits per message, thorough: every bit). The Lean driver "
         "predicts refusal class / reply / state change from the message's description (decodes?, sender, recipient, "
-        "payload, the known ID key it validates under - derived with rpki-rs) and the observed registrations, compares "
-        "reply content and resulting state, and evaluates acts_only_for_registered_key, refused_no_change (raw state "
-        "before/after compared), scope_of_accepted, reply_signed_by_current_id and flip_identical on the "
+        "payload, the known ID key it validates under - derived with rpki-rs) and the observed registrations with the "
+        "issued and suspended child certificates (key, class, resources, limit, expiring), compares reply content "
+        "(per listed certificate: key and resources) and the resulting state (per child: suspension flag, keys in use / "
+        "revoked, issued and suspended certificates; also after childsuspend / childres / childunsuspend), and evaluates acts_only_for_registered_key, refused_no_change (raw state "
+        "before/after compared), scope_of_accepted, scope_within_entitlement (a certificate in a reply that the CA did "
+        "not hold before the request carries only resources of the sender's entitlement), reply_signed_by_current_id and "
+        "flip_identical on the "
         "implementation's own observations; distinct_nontrivial counts distinct (op kind, model branch) pairs")
 
 
@@ -40,7 +47,7 @@ def check(ctx):
     found = False
     if vlib.build_harness(ctx, ["proto"]):
         n, length = (14, 26) if ctx.tier == "quick" else (56, 50)
-        traces = vlib.corpus_traces(ctx, "proto", corpus="proto-cms")
+        traces = pc.corpus_traces_parallel(ctx, "proto-cms", procs=10)
         traces += vlib.parallel_traces(ctx, "proto", n, length, procs=14, extra_args=["profile=cms"])
         found = pc.judge(ctx, traces, signature, sample_pref=("send", "flip", "updateid", "childid", "pubreadd"))
     else:
@@ -56,6 +63,12 @@ def check(ctx):
         "the recipient handle of an RFC 6492 message is not compared with the addressed CA by krill; the model follows",
         "multi-element publication deltas are C10's subject; here each delta has one element",
         "messages older than the CMS validity window (+-5 min) are not produced (no clock control over rpki-rs)",
+        "children do not share certificate keys: krill marks a removed key revoked in every child that has it in use and "
+        "keeps one certificate per key and class whoever asked for it; the model books both under the sender",
+        "a resource class that holds child certificates has a current key (the model's classes are those with a current "
+        "key; process_child_unsuspend also walks classes without one, where issue_cert would fail)",
+        "the clock enters the un-suspension as one bit per suspended certificate (not_after <= now + 1 day), observed by "
+        "the harness at the time of the request",
     ]
     return vlib.finish(ctx, "proof", RULE)
 
@@ -70,7 +83,11 @@ MANIFEST = {
             "updates) and every message: any state change or any reply implies the bytes decode to a message validly signed "
             "with the key registered at that moment for the child named as sender (RFC 6492) / the publisher named in the URL "
             "(RFC 8181); everything else is refused with identical state and no reply; an accepted request touches the "
-            "sender's record and certificates only, issues within entitlement and class, lists only its certificates, "
+            "sender's record and certificates only - the automatic un-suspension of a suspended sender included, which "
+            "re-issues a suspended certificate iff it is not about to expire and its resources are inside the sender's "
+            "current entitlement (unsuspend_reissues_iff), drops the others and marks their keys revoked, and fails as a "
+            "whole iff a limit no longer fits (unsuspend_fails_iff) -, issues within entitlement and class, lists only its "
+            "certificates with the resources they carry, "
             "publishes only under the base URI of the access record and leaves other publishers' files alone; the reply is "
             "signed with the server side's current ID key and addressed to the sender. Tied to the code by feeding real CMS "
             "objects built under right and wrong keys, and single-bit corruptions of them, to CaManager::rfc6492 and "
